@@ -238,52 +238,49 @@ def run(ctx):
         if isinstance(st, ast.Assign) and any(isinstance(t, ast.Name) and t.id == p_v for t in st.targets) and isinstance(st.value, ast.Call) \
                 and norm(st.value.func) == ft_var and [norm(a) for a in st.value.args] == [p_v]:
             conv_nodes.add(cfg.node_of(st).id)
-    ctx.floor("R5.2", "conversion statements v = field_type(v)", len(conv_nodes), 1)
+    def _is_conv(e):
+        return isinstance(e, ast.Call) and norm(e.func) == ft_var and [norm(a) for a in e.args] == [p_v] and not e.keywords
+
+    inline_conv = [c for c in stores if len(c.args) == 2 and _is_conv(c.args[1])]
+    ctx.floor("R5.2", "conversions field_type(v) feeding the store", len(conv_nodes) + len(inline_conv), 1)
+    from .. import logic
+
+    legit_goal = logic.parse(f"{p_v} is None or {p_k} not in {p_self}.__slots__ or not {ft_var} or {ft_var} is None or isinstance({p_v}, {ft_var})")
     legit = {f"{p_v} is not None", f"{p_k} in {p_self}.__slots__", ft_var, f"{ft_var} is not None"}
     for c in stores:
         snode = cfg.node_of(c)
-        ctx.check([norm(a) for a in c.args] == [p_k, p_v], "R5.2", "Record.__setattr__:store-args", f"stores {[norm(a) for a in c.args]}", c,
-                  f"stores ({p_k}, {p_v})")
+        args_ok = len(c.args) == 2 and norm(c.args[0]) == p_k and (norm(c.args[1]) == p_v or _is_conv(c.args[1])) and not c.keywords
+        ctx.check(args_ok, "R5.2", "Record.__setattr__:store-args", f"stores {[norm(a) for a in c.args]}", c, f"stores ({p_k}, {p_v}) or ({p_k}, {ft_var}({p_v}))")
+        if c in inline_conv:
+            ctx.ok("R5.2", "Record.__setattr__:paths", "the store receives field_type(v) directly", c)
+            continue
         paths = simple_paths(cfg, cfg.entry, snode.id)
         n_bad = 0
         for path, conds in paths:
             if conv_nodes & set(path):
                 # conversion must come before the store and not be followed by a re-assignment of v
                 continue
-            ok = False
-            for cond in conds:
-                if cond is None or isinstance(cond[0], str):
-                    continue
-                expr, pol = cond
-                # bypass 1: already an instance
-                if pol is False and isinstance(expr, ast.UnaryOp) and isinstance(expr.op, ast.Not) and \
-                        norm(expr.operand) == f"isinstance({p_v}, {ft_var})":
-                    ok = True
-                if pol is True and norm(expr) == f"isinstance({p_v}, {ft_var})":
-                    ok = True
-                # bypass 2: the typed-slot guard is false and consists only of legitimate conjuncts
+            prem = [(cond[0], cond[1]) for cond in conds if cond is not None and not isinstance(cond[0], str)]
+            if logic.implies(prem, legit_goal):
+                continue
+            n_bad += 1
+            # diagnosis: a bypass guard with an extra conjunct
+            for expr, pol in prem:
                 if pol is False and isinstance(expr, ast.BoolOp) and isinstance(expr.op, ast.And):
-                    conj = {norm(v) for v in expr.values}
-                    if conj <= legit:
-                        ok = True
-                    else:
-                        extra = sorted(conj - legit)
+                    extra = sorted({norm(v) for v in expr.values} - legit - {f"not isinstance({p_v}, {ft_var})"})
+                    if extra:
                         ctx.fail("R5.2", f"Record.__setattr__:bypass:{extra[0]}",
                                  f"values for which `{extra[0]}` is false are stored without conversion (legitimate bypasses are: None, "
                                  "not a slot, untyped)", expr, key=f"R5.2:Record.__setattr__:illegitimate-bypass:{extra[0]}")
-                        ok = True  # reported separately
-                if pol is False and norm(expr) in legit:
-                    ok = True
-            if not ok:
-                n_bad += 1
         ctx.check(n_bad == 0, "R5.2", "Record.__setattr__:paths", f"{n_bad} of {len(paths)} paths reach the store with an unconverted value",
                   c, f"{len(paths)} paths to the store: each converts or carries a legitimate bypass fact",
                   key="R5.2:Record.__setattr__:unconverted-path")
         ctx.sample({"rule": "R5.2", "paths_to_store": len(paths)})
         # a failing conversion leaves the slot unchanged: conversion precedes the store
         for cn in conv_nodes:
-            ctx.check(snode.id in cfg.reachable(cn) and cn not in cfg.reachable(snode.id), "R5.2", "Record.__setattr__:order",
-                      "the conversion does not precede the store", c, "conversion precedes the store")
+            if snode.id in cfg.reachable(cn):
+                ctx.check(cn not in cfg.reachable(snode.id), "R5.2", "Record.__setattr__:order",
+                          "the conversion does not precede the store", c, "conversion precedes the store")
 
     # ------------------------------------------------------------------ R5.3 range guards
     ctx.rule("R5.3", "constructors of bounded integer types reject exactly the complement of [0, 2^N-1] (N from the class name; "
@@ -424,7 +421,23 @@ def run(ctx):
                 a = pcall.args[0]
                 if isinstance(a, ast.Name) and a.id == var:
                     facts = {(t, p) for t, p, _ in ccfg.facts_at(ccfg.node_of(pcall).id)}
-                    good = (f"isinstance({var}, self.__type__)", True) in facts
+
+                    def _edge(fs, var=var):
+                        return any(t == f"isinstance({var}, self.__type__)" and p for t, p, _ in fs)
+
+                    def _node(nd, var=var):
+                        st_ = nd.ast
+                        if nd.kind == "for" and isinstance(st_, ast.For) and var in {x.id for x in ast.walk(st_.target) if isinstance(x, ast.Name)}:
+                            return False
+                        if nd.kind == "stmt" and isinstance(st_, (ast.Assign, ast.AugAssign, ast.AnnAssign)):
+                            tg = st_.targets if isinstance(st_, ast.Assign) else [st_.target]
+                            if any(isinstance(x, ast.Name) and x.id == var for t_ in tg for x in ast.walk(t_)):
+                                v_ = getattr(st_, "value", None)
+                                return isinstance(st_, ast.Assign) and isinstance(v_, ast.Call) and norm(v_.func) == "self.__type__" and [norm(x) for x in v_.args] == [var] and not v_.keywords
+                        return None
+
+                    # on every path the element has either passed isinstance(element, self.__type__) or been replaced by self.__type__(element)
+                    good = ccfg.must_hold(ccfg.node_of(pcall).id, _edge, _node)
                     if not good:
                         wide = [t for t, p in facts if p and t.startswith(f"isinstance({var}, ")]
                         why = (f"elements are passed through unconverted when {wide[0]}, which is wider than the element type" if wide else
